@@ -1332,11 +1332,22 @@ def order_pair(rng):
     r = rng
     wa = r.choice([1, 2, 2])
     wb = r.choice([2, 3])
-    chain = r.random() < 0.45
+    # topology of the ordering: a->b | a->b->c | a->b, b->c, a->c (three statements, same meaning as the chain) |
+    # a->c, b->c (two statements naming the same later field)
+    topo = r.choice(["pair", "pair", "pair", "chain", "chain", "triangle", "fanin", "fanin"])
+    chain = topo != "pair"
+    wc = 2
+    if topo == "fanin":
+        # a and b are swizzled in one step: keep the number of choice paths enumerable
+        wa, wb = r.choice([1, 2]), r.choice([1, 2, 2])
+    elif chain:
+        # three ordered fields: keep the enumeration complete also when an ordering defect merges two steps
+        wb, wc = 2, r.choice([1, 2])
+    cmax = (1 << wc) - 1
     fields = [{"n": "a", "k": "int", "w": wa, "s": False, "r": True},
               {"n": "b", "k": "int", "w": wb, "s": False, "r": True}]
     if chain:
-        fields.append({"n": "c", "k": "int", "w": 2, "s": False, "r": True})
+        fields.append({"n": "c", "k": "int", "w": wc, "s": False, "r": True})
     extra_a = r.random() < 0.3
     if extra_a:
         fields.append({"n": "x", "k": "int", "w": 1, "s": False, "r": True})
@@ -1352,24 +1363,26 @@ def order_pair(rng):
         own.append(["e", ["in", ["f", ["a"]], [["c", v] for v in sorted(r.sample(range(amax + 1), r.randint(2, amax)))]]])
 
     def coupling():
+        # the later partner of a: b, or (fan-in: a and b both before c, a and b not ordered and not coupled) c
+        ln, lmax, lw = ("c", cmax, wc) if topo == "fanin" else ("b", bmax, wb)
         k = r.choice(["le", "ge", "ifeq", "imp", "sum", "ne"])
         if k == "le":
-            return [["e", ["b", "<=", ["f", ["b"]], ["f", ["a"]]]]]
+            return [["e", ["b", "<=", ["f", [ln]], ["f", ["a"]]]]]
         if k == "ge":
-            return [["e", ["b", ">=", ["f", ["b"]], ["f", ["a"]]]]]
+            return [["e", ["b", ">=", ["f", [ln]], ["f", ["a"]]]]]
         if k == "ne":
-            return [["e", ["b", "!=", ["f", ["b"]], ["f", ["a"]]]]]
+            return [["e", ["b", "!=", ["f", [ln]], ["f", ["a"]]]]]
         if k == "ifeq":
             v = r.randint(0, amax)
-            return [["if", [[["b", "==", ["f", ["a"]], ["c", v]], [["e", ["b", "==", ["f", ["b"]], ["c", r.randint(0, bmax)]]]]]],
-                     [["e", ["b", r.choice(["<", ">="]), ["f", ["b"]], ["c", r.randint(1, bmax)]]]] if r.random() < 0.5 else None]]
+            return [["if", [[["b", "==", ["f", ["a"]], ["c", v]], [["e", ["b", "==", ["f", [ln]], ["c", r.randint(0, lmax)]]]]]],
+                     [["e", ["b", r.choice(["<", ">="]), ["f", [ln]], ["c", r.randint(1, lmax)]]]] if r.random() < 0.5 else None]]
         if k == "imp":
             v = r.randint(0, amax)
             return [["imp", ["b", "==", ["f", ["a"]], ["c", v]],
-                     [["e", ["in", ["f", ["b"]], [["c", x] for x in sorted(r.sample(range(bmax + 1), r.randint(1, 2)))]]]]]]
-        return [["e", ["b", "<=", ["b", "+", ["f", ["a"]], ["f", ["b"]]], ["u", bmax, wb + 1]]]]
+                     [["e", ["in", ["f", [ln]], [["c", x] for x in sorted(r.sample(range(lmax + 1), r.randint(1, 2)))]]]]]]
+        return [["e", ["b", "<=", ["b", "+", ["f", ["a"]], ["f", [ln]]], ["u", lmax, lw + 1]]]]
     progs = []
-    vary = "bc" if (chain and r.random() < 0.7) else "ab"
+    vary = "bc" if (topo in ("chain", "triangle") and r.random() < 0.7) else "ab"
     shared_ab = coupling()
 
     bc_ops = r.sample(["<=", ">=", "!=", "<"], 2)     # the two partner programs get couplings of different multiplicity
@@ -1382,11 +1395,11 @@ def order_pair(rng):
             return [["e", ["b", bc_ops[which], ["f", ["c"]], ["f", ["b"]]]]]
         if k == "imp":
             return [["imp", ["b", "!=", ["f", ["c"]], ["c", 0]], [["e", ["b", "!=", ["f", ["b"]], ["c", r.randint(0, bmax)]]]]]]
-        return [["if", [[["b", "==", ["f", ["b"]], ["c", r.randint(0, bmax)]], [["e", ["b", "==", ["f", ["c"]], ["c", r.randint(0, 3)]]]]]], None]]
+        return [["if", [[["b", "==", ["f", ["b"]], ["c", r.randint(0, bmax)]], [["e", ["b", "==", ["f", ["c"]], ["c", r.randint(0, cmax)]]]]]], None]]
     for which in range(2):
         st = [copy.deepcopy(s) for s in own] + (copy.deepcopy(shared_ab) if vary == "bc" else coupling())
         if chain:
-            bc = bc_coupling(which)
+            bc = bc_coupling(which if topo != "fanin" else 0)
             # the statements may mention later chain members before their predecessors
             st = (bc + st) if bc_first else (st + bc)
         order = []
@@ -1394,11 +1407,20 @@ def order_pair(rng):
             order.append(["so", [["a"], ["x"]], [["b"]]])
         else:
             order.append(["so", [["a"]], [["b"]]])
-        if chain:
+        if topo == "fanin":
+            order = [["so", [["a"]], [["c"]]], ["so", [["b"]], [["c"]]]]
+        elif chain:
             order.append(["so", [["b"]], [["c"]]])
+        if topo == "triangle":
+            order.append(["so", [["a"]], [["c"]]])
+        if topo in ("fanin", "triangle") and which == 0:
+            order_perm = list(range(len(order)))
+            r.shuffle(order_perm)
+        if topo in ("fanin", "triangle"):
+            order = [order[i] for i in order_perm]
         blocks = [{"n": "c0", "st": st + order}] if r.random() < 0.6 else [{"n": "c0", "st": st}, {"n": "ord", "st": order}]
         progs.append({"enums": {}, "classes": {"C0": {"base": None, "fields": copy.deepcopy(fields), "blocks": blocks}}, "top": "C0",
-                      "vary": vary})
+                      "vary": vary, "topo": topo})
     return progs
 
 
